@@ -552,17 +552,20 @@ def r_varint_narrowing(r, prog):
 
 def r_announced_sizes(r, prog):
     """A length decoded from the input must not reach a reservation unless compared against / clamped by remaining()."""
-    RESERVE = ('try_reserve_exact', 'try_reserve', 'reserve', 'reserve_exact', 'with_capacity', 'with_capacity_and_hasher')
+    # reservations, and allocations outright (`vec![0; n]` is from_elem(0, n): not even fallible - an announced 2^62 aborts the process)
+    RESERVE = ('try_reserve_exact', 'try_reserve', 'reserve', 'reserve_exact', 'with_capacity', 'with_capacity_and_hasher',
+               'from_elem', 'resize', 'resize_with', 'repeat', 'new_uninit_slice', 'new_zeroed_slice', 'extend_with', 'with_capacity_in', 'from_elem_in')
     n = 0
     for f in prog.fns.values():
         if f.crate.tag not in ('slice_codec', 'slicec_bin'):
             continue
         for c in f.calls():
-            if c.name() not in RESERVE or not c.args:
+            if c.name() not in RESERVE or not c.args or f.blocks[c.bb].get('cleanup'):
                 continue
-            size = vexpr(f, c.args[-1])
-            if 'decode_varuint' not in size and 'decode_size' not in size and 'decode_varint' not in size:
+            sizes = [v for v in (vexpr(f, a) for a in c.args) if 'decode_varuint' in v or 'decode_size' in v or 'decode_varint' in v]
+            if not sizes:
                 continue
+            size = sizes[-1]
             n += 1
             if re.search(r'min\(', size) and 'remaining(' in size:
                 r.ok('%s: reservation clamped by remaining()' % f.path, size)
@@ -630,11 +633,11 @@ OWN_ERRORS = {
 def r_own_error_sites(r, prog):
     """Everything the encoder accepts must decode to the same value, and everything in range must be accepted: besides passing on the errors
     of the buffer underneath (`?`), the encoding and decoding functions refuse a value *themselves* in exactly the places listed in OWN_ERRORS,
-    each for a reason that is part of the format. A new `Err(..)` built anywhere else in encoding.rs / decoding.rs is a new way to refuse a
+    each for a reason that is part of the format. A new `Err(..)` built anywhere else in the codec above the buffer module is a new way to refuse a
     value (an over-long but valid varint, a sequence longer than the spare capacity of a growable target) and breaks the round trip."""
     from collections import Counter
     errs = [a for a in aggregates(prog, 'core::result::Result', 'Err', crates=('slice_codec',))
-            if not a['fn'].blocks[a['bb']].get('cleanup') and re.match(r'^slice_codec::(encoding|decoding)::', re.sub(r'::\{closure#\d+\}', '', a['fn'].path))]
+            if not a['fn'].blocks[a['bb']].get('cleanup') and 'slice_codec::buffer::' not in a['fn'].path and not a['fn'].path.startswith('slice_codec::error::')]      # the whole codec above the buffers: encoding.rs, decoding.rs, and the Encoder / Decoder types themselves (a budget, a depth limit)
     cnt = Counter(re.sub(r'::\{closure#\d+\}', '', a['fn'].path) for a in errs)
     seen = set()
     for path, n in sorted(cnt.items()):
